@@ -175,7 +175,7 @@ func runDial(in input, c *hx.Case) {
 		ips, lerr = lookup(host)
 	}
 	setPhase(in.Phase) // the stub answers the dialer's look-up like it answered the harness's
-	ctx, cancel := context.WithTimeout(context.Background(), 120*time.Millisecond)
+	ctx, cancel := dialContext(host, 150*time.Millisecond, 120*time.Millisecond)
 	conn, err := daisen2.VerifGuardedDialContext(ctx, "tcp", in.Addr)
 	cancel()
 	if conn != nil {
@@ -316,7 +316,7 @@ func runE2E(in input, c *hx.Case) {
 	var derr error
 	if perr == nil && (u.Scheme == "http" || u.Scheme == "https") {
 		// also when the check refused: a redirect or a later call would drive the client the same way
-		ctx, cancel := context.WithTimeout(context.Background(), 700*time.Millisecond)
+		ctx, cancel := dialContext(u.Hostname(), 250*time.Millisecond, 1500*time.Millisecond)
 		req, rerr := http.NewRequestWithContext(ctx, "GET", raw, nil)
 		if rerr == nil {
 			resp, err := daisen2.VerifGuardedLLMClient().Do(req)
